@@ -158,6 +158,11 @@ def c17() -> int:
     # a vehicle with idle draw that one idle step empties: it stands Idle with exactly 0 energy for one step
     fsx(c, REQ + ({"drain": True, "name": "W-req/drain"},), ("hivemc.bundles", "c17", {}), K=K, H=H - 2 if quick else H, needs=["instr:Idle:DispatchTrip:OutOfService"])
     auto_worlds(c, "c17", quick)
+    # multi-request pooling plans (only reachable through the vehicle-state API): entered, travelled, the leading request possibly gone,
+    # then stopped -- every request of the plan must be released
+    from .enum_pooling import run_c17 as interrupted_pooling_plans
+
+    interrupted_pooling_plans(c)
     return c.finish()
 
 
